@@ -345,10 +345,16 @@ class Component(BaseObject):
                 baseGlyph = layer[baseGlyph]
             else:
                 return
-        if baseGlyph.hasObserver(self, "Glyph.NameChanged"):
-            baseGlyph.removeObserver(self, "Glyph.NameChanged")
-            baseGlyph.removeObserver(self, "Glyph.ContoursChanged")
-            baseGlyph.removeObserver(self, "Glyph.ComponentsChanged")
+        # go through this component's own dispatcher: the observed glyph may
+        # have been let go by the layer already (replaced by another glyph
+        # object, or released before this component while the layer is being
+        # deleted), it then has no dispatcher to ask and the registrations
+        # would stay in the font's notification center for good
+        dispatcher = self.dispatcher
+        if dispatcher.hasObserver(observer=self, notification="Glyph.NameChanged", observable=baseGlyph):
+            dispatcher.removeObserver(observer=self, notification="Glyph.NameChanged", observable=baseGlyph)
+            dispatcher.removeObserver(observer=self, notification="Glyph.ContoursChanged", observable=baseGlyph)
+            dispatcher.removeObserver(observer=self, notification="Glyph.ComponentsChanged", observable=baseGlyph)
 
     def _beginLayerObservations(self):
         layer = self.layer
